@@ -363,9 +363,16 @@ func runC02(c *h.Ctx) {
 		try(`$.s like_regex "a.b" flag "` + reverse(f) + `"`)
 		try(`$.s like_regex "a.b" flag "` + f + f + `"`)
 	}
+	// (g) maintainer-written paths harvested from the library's tests and README
+	for i, hp := range harvestedPaths() {
+		if c.Mine(i) {
+			roundTripAlways(c, hp.P, hp.Text, docs, r)
+		}
+	}
+	c.Count("harvested.paths", int64(len(harvestedPaths())))
 	// (f) random generated paths in random spellings
 	g := &gen.G{R: r, C: c03Cfg()}
-	n := c.PerShard(c.N(150000, 3000000))
+	n := c.PerShard(c.N(600000, 6000000))
 	for i := 0; i < n; i++ {
 		ap := g.Path()
 		decorate(r, ap)
